@@ -27,25 +27,23 @@ well-formedness hypothesis.  What is transcribed, and from where:
                              WITHOUT the final `from_utf8_lossy` (identity on valid UTF-8; the
                              harness applies it to the model's bytes before comparing)
   * `formDecode`             `RawStrParser` as a whole
-  * `firstView`, `viewKey`, `keyIndices`   `NameView::{new, shift, key_lossy, key}`,
-                             `Key::indices` (rocket-0.5.1/src/form/name/{view,key}.rs)
-  * `mapPush`, `mapFinalize`, `rocketMap`   `MapContext::{push, push_value, finalize}` for
-                             `HashMap<String, String>` in lenient mode, with
-                             `FromFieldContext::{push_value, finalize}` for `String`
-                             (rocket-0.5.1/src/form/{from_form,from_form_field}.rs)
+  * (form guard)            `Form<RawFields>`: `RawFields::push_value` keeps every field the parser
+                             yields as `(field.name.source(), field.value)` — the decoded name
+                             verbatim — in body order; `finalize` never fails.  So the route sees
+                             exactly `formDecode body` (no model function needed)
   * `parseSid`               `<u32 as FromParam>` = `u32::from_str` on the path segment
   * `routeBody`              the body of `rocket_receive_event`
   * `receive`                the whole request: path parameter guard, data guard, route body
   * `eventData`              how `set_event` (src/datamodel/expression_engine.rs) fills `_event.data`
 
 Quirks transcribed on purpose:
-  * the form is a `HashMap<String,String>`: of two fields with the same key the FIRST value is kept
-    (`FromFieldContext::push_value` only stores when empty; lenient mode reports no duplicate);
-  * rocket reads field NAMES structurally: only the first key of `a.b`, `a[b]` is used, `[x]` is
-    `x`, `k:x=..`/`v:x=..` address key / value of entry `x`, any other `p:x` and an empty first key
-    make the whole form fail (status 422) — see `rocketMap`;
-  * the route iterates the map in `HashMap` order: the order of `params` is not defined.  The model
-    lists them in order of first appearance; every comparison is up to permutation;
+  * duplicate fields follow the route's own loop over the fields in body order: a later
+    `_scxmleventname` / `_content` replaces an earlier one; every other field is pushed to
+    `param_values` (duplicates included) and `set_event` inserts them into a `HashMap` in that order,
+    so the LAST value of a repeated parameter name is the one in `_event.data` (`mapOf`);
+  * field names are plain text: `a.b`, `a[b]`, `k:x`, `x:y`, the empty name are parameter names like
+    any other (before the repair of finding C20-F1 the form was a `HashMap<String,String>` and rocket
+    read the names as form paths);
   * the session is looked up before the event name is checked, and both answers are 400.
 -/
 namespace Rfsm.Http
@@ -123,122 +121,6 @@ def urlDecode (s : Bytes) : Bytes := pctDecode (s.map plusToSpace)
 def formDecode (body : Bytes) : List (Bytes × Bytes) :=
   (rawFields body).map (fun nv => (urlDecode nv.1, urlDecode nv.2))
 
-/-! ## rocket's `HashMap<String,String>` form context -/
-
-/-- index of the first `.` or `[`, or the length -/
-def findDelim : Bytes → Nat
-  | [] => 0
-  | c :: cs => if c == 46 || c == 91 then 0 else findDelim cs + 1
-
-/-- index just after the first `]`, or the length -/
-def afterRbr : Bytes → Nat
-  | [] => 0
-  | c :: cs => if c == 93 then 1 else afterRbr cs + 1
-
-/-- `NameView::new(name)`: the first view and whether it reaches the end of the name -/
-def firstView (name : Bytes) : Bytes × Bool :=
-  let n := match name with
-    | [] => 0
-    | c :: cs =>
-      if c == 61 then 0
-      else if c == 91 then afterRbr name
-      else if c == 46 then findDelim cs + 1
-      else findDelim name
-  (name.take n, n == name.length)
-
-/-- `NameView::key_lossy` of a view -/
-def viewKey (view : Bytes) (atLast : Bool) : Bytes :=
-  match view with
-  | [] => []
-  | c :: cs =>
-    if c == 46 then cs
-    else if c == 91 then
-      if view.getLast? == some 93 then cs.dropLast
-      else if atLast then cs
-      else view
-    else view
-
-/-- `key.indices()`: the first two `:`-separated parts -/
-def keyIndices (key : Bytes) : Bytes × Option Bytes :=
-  let (a, r) := splitAtByte 58 key
-  if key.any (fun c => c == 58) then (a, some (splitAtByte 58 r).1) else (a, none)
-
-/-- one entry of `MapContext`: table key, key context value, value context value -/
-structure Entry where
-  idx : Bytes
-  k : Option Bytes
-  v : Option Bytes
-deriving Repr, DecidableEq
-
-structure MapCtx where
-  entries : List Entry := []
-  failed : Bool := false
-deriving Repr, DecidableEq
-
-/-- `FromFieldContext::push_value` for `String`: only the first push is stored -/
-def pushOpt (o : Option Bytes) (v : Bytes) : Option Bytes :=
-  match o with
-  | some x => some x
-  | none => some v
-
-def hasIdx (es : List Entry) (i : Bytes) : Bool := es.any (fun e => e.idx == i)
-
-/-- update the entry with table key `i` (the caller made sure it exists) -/
-def updEntry (es : List Entry) (i : Bytes) (f : Entry → Entry) : List Entry :=
-  es.map (fun e => if e.idx == i then f e else e)
-
-/-- `MapContext::ctxt`: make sure the entry exists -/
-def ensure (es : List Entry) (i : Bytes) : List Entry :=
-  if hasIdx es i then es else es ++ [{ idx := i, k := none, v := none }]
-
-def startsWithK (kind : Bytes) : Bool :=
-  match kind with
-  | c :: _ => c == 107 || c == 75
-  | [] => false
-
-def startsWithV (kind : Bytes) : Bool :=
-  match kind with
-  | c :: _ => c == 118 || c == 86
-  | [] => false
-
-/-- `MapContext::push_value` for one decoded field -/
-def mapPush (m : MapCtx) (nv : Bytes × Bytes) : MapCtx :=
-  let (view, atLast) := firstView nv.1
-  let key := viewKey view atLast
-  if key.isEmpty then { m with failed := true }
-  else match keyIndices key with
-    | (i, none) =>
-      let isNew := !hasIdx m.entries i
-      let es := ensure m.entries i
-      let es := if isNew then updEntry es i (fun e => { e with k := pushOpt e.k i }) else es
-      { m with entries := updEntry es i (fun e => { e with v := pushOpt e.v nv.2 }) }
-    | (kind, some i) =>
-      if startsWithK kind then
-        { m with entries := updEntry (ensure m.entries i) i (fun e => { e with k := pushOpt e.k nv.2 }) }
-      else if startsWithV kind then
-        { m with entries := updEntry (ensure m.entries i) i (fun e => { e with v := pushOpt e.v nv.2 }) }
-      else { m with failed := true }
-
-/-- `HashMap::insert` on an association list (a later insert replaces the value in place) -/
-def insertKV (acc : List (Bytes × Bytes)) (k v : Bytes) : List (Bytes × Bytes) :=
-  if acc.any (fun p => p.1 == k) then acc.map (fun p => if p.1 == k then (k, v) else p)
-  else acc ++ [(k, v)]
-
-def finalizeStep (acc : List (Bytes × Bytes)) (e : Entry) : List (Bytes × Bytes) :=
-  match e.k, e.v with
-  | some k, some v => insertKV acc k v
-  | _, _ => acc
-
-/-- `MapContext::finalize` (lenient): every entry needs a key and a value; collect into a map -/
-def mapFinalize (m : MapCtx) : Option (List (Bytes × Bytes)) :=
-  if m.failed then none
-  else if m.entries.any (fun e => e.k.isNone || e.v.isNone) then none
-  else some (m.entries.foldl finalizeStep [])
-
-/-- `Form<HashMap<String,String>>` from the decoded fields; `none` = form error (422) -/
-def rocketMap (fields : List (Bytes × Bytes)) : Option (List (Bytes × Bytes)) :=
-  mapFinalize (fields.foldl mapPush {})
-
 /-! ## events, sessions, the route -/
 
 structure Event where
@@ -256,9 +138,18 @@ inductive EvData where
   | map (kvs : List (Bytes × Bytes))
 deriving Repr, DecidableEq
 
+/-- `HashMap::insert` on an association list (a later insert replaces the value in place) -/
+def insertKV (acc : List (Bytes × Bytes)) (k v : Bytes) : List (Bytes × Bytes) :=
+  if acc.any (fun p => p.1 == k) then acc.map (fun p => if p.1 == k then (k, v) else p)
+  else acc ++ [(k, v)]
+
+/-- the `for pair in pv { data.insert(pair.name, value) }` loop of `set_event` -/
+def mapOf (pv : List (Bytes × Bytes)) : List (Bytes × Bytes) :=
+  pv.foldl (fun acc p => insertKV acc p.1 p.2) []
+
 def eventData (e : Event) : EvData :=
   match e.params with
-  | some pv => .map pv
+  | some pv => .map (mapOf pv)
   | none => match e.content with
     | some c => .text c
     | none => .null
@@ -288,7 +179,7 @@ def buildEvent (form : List (Bytes × Bytes)) : Option Bytes × Event :=
     else (acc.1, { acc.2 with params := some ((acc.2.params.getD []) ++ [nv]) }))
     (none, { name := [], params := none, content := none })
 
-/-- the body of `rocket_receive_event` on the parsed form map: status and new table -/
+/-- the body of `rocket_receive_event` on the form fields (body order): status and new table -/
 def routeBody (t : Table) (sid : Nat) (form : List (Bytes × Bytes)) : Nat × Table :=
   match lookup t sid with
   | none => (400, t)
@@ -321,11 +212,10 @@ def parseSid (seg : Bytes) : Option Nat :=
     | none => none
 
 /-- `handlePost`: a POST whose body was decoded into `fields`, path segment already a number.
-    422 when rocket cannot build the map, otherwise the route body. -/
+    The data guard `Form<RawFields>` hands every decoded field to the route with its verbatim
+    name, in body order, and cannot fail on a url-encoded body; then the route body. -/
 def handlePost (t : Table) (sid : Nat) (fields : List (Bytes × Bytes)) : Nat × Table :=
-  match rocketMap fields with
-  | none => (422, t)
-  | some form => routeBody t sid form
+  routeBody t sid fields
 
 /-- the whole request `POST /scxml/<seg>` with an `application/x-www-form-urlencoded` body.
     rocket percent-decodes the path segment before `u32::from_param`.  A segment that is not a
